@@ -173,6 +173,11 @@ def _fold(node, scope, depth):
         if a is UNKNOWN or b is UNKNOWN:
             return UNKNOWN
         return _CMP[type(node.ops[0])](a, b)
+    if isinstance(node, ast.Compare) and len(node.ops) > 1 and all(type(o) in _CMP for o in node.ops):
+        vals = [f(node.left)] + [f(c) for c in node.comparators]       # all operands are evaluated here; fine for constant folding
+        if any(v is UNKNOWN for v in vals):
+            return UNKNOWN
+        return all(_CMP[type(o)](a, b) for o, a, b in zip(node.ops, vals, vals[1:]))
     if isinstance(node, ast.Name):
         if node.id in scope.env:
             v = scope.env[node.id]
